@@ -336,55 +336,14 @@ func ruleImportsWriters(c *Ctx) []Obligation {
 					ok = ok && fs[c.ff("defname")] != nil && name == "_" && fs[c.ff("defalias")] != nil && al
 					o.req(ok, fn, construct, w.in.Pos(), "outside the registration function only the anonymous-import entry {name:\"_\", alias:true} may be stored (Anon); found value %s — imports must be added lazily by rendering a reference", a.Desc(mu.Value))
 				case fieldRole == "hints":
-					ok := hintSetters[w.fn.Name()] && w.fn.Signature.Recv() != nil
-					o.req(ok, fn, construct, w.in.Pos(), "File.hints may only be updated by ImportName / ImportNames / ImportAlias")
-					if !ok {
-						break
-					}
-					// the hint stored is exactly what the caller said: {name, alias iff ImportAlias}, under the caller's path
-					fs, okLit := a.structLit(mu.Value)
-					wantAlias := w.fn.Name() == "ImportAlias"
-					al, isC := constBool(fs[c.ff("defalias")])
-					if fs[c.ff("defalias")] == nil {
-						al, isC = false, true
-					}
-					var wantKey, wantName ssa.Value
-					if w.fn.Name() == "ImportNames" {
-						for _, ml := range mapLoops(w.fn) {
-							if ml.blocks[w.in.Block()] {
-								wantKey, wantName = ml.key, ml.val
-							}
-						}
-					} else if len(w.fn.Params) == 3 {
-						wantKey, wantName = w.fn.Params[1], w.fn.Params[2]
-					}
-					shape := okLit && isC && al == wantAlias && wantKey != nil && stripConv(mu.Key) == wantKey && fs[c.ff("defname")] != nil && stripConv(fs[c.ff("defname")]) == wantName
-					o.req(shape, fn, construct+" stores the caller's name under the caller's path, flagged alias exactly for ImportAlias", w.in.Pos(),
-						"stored {name: %s, alias: %s} under %s on every path — an alias recorded as a plain name is printed without alias in the import block while the body still uses it", a.Desc(fs[c.ff("defname")]), a.Desc(fs[c.ff("defalias")]), a.Desc(mu.Key))
-					// unconditional: the update lies on every path (for the loop form: every iteration)
-					uncond := true
-					if w.fn.Name() != "ImportNames" {
-						for _, r := range a.returns() {
-							if !(w.in.Block() == r.Block() || w.in.Block().Dominates(r.Block())) {
-								uncond = false
-							}
-						}
-						n := 0
-						for _, w2 := range ws {
-							if w2.fn == w.fn && w2.kind == "mapupdate" {
-								n++
-							}
-						}
-						if n != 1 {
-							uncond = false
-						}
-					}
-					o.req(uncond, fn, construct+" happens exactly once, unconditionally", w.in.Pos(), "a hint that is recorded only for some inputs (or in different shapes on different paths) changes the meaning of the same call")
+					ok := c.onlyReachedFrom(w.fn, func(f *ssa.Function) bool { return hintSetters[f.Name()] && f.Signature.Recv() != nil && isFileMethod(c, f) }, 3)
+					o.req(ok, fn, construct, w.in.Pos(), "File.hints may only be updated by ImportName / ImportNames / ImportAlias (or an unexported helper called only by them)")
 				}
 			}
 		}
 	}
 	// hint setters must not touch imports: covered above (any mapupdate on imports outside register/Anon shape is a violation)
+	c.hintSetterPaths(o)
 	return o.list
 }
 
@@ -1276,4 +1235,133 @@ func (c *Ctx) groupType() *types.Named {
 		broken("anchor lost: type jen.Group")
 	}
 	return o.Type().(*types.Named)
+}
+
+// onlyReachedFrom: f satisfies ok, or f is unexported, has at least one static caller in the module
+// and every caller (transitively, up to depth) satisfies this too. Function values are refused.
+func (c *Ctx) onlyReachedFrom(f *ssa.Function, ok func(*ssa.Function) bool, depth int) bool {
+	if ok(f) {
+		return true
+	}
+	if depth == 0 || isExportedName(f.Name()) || f.Parent() != nil {
+		return false
+	}
+	n := 0
+	for _, g := range c.CG().Funcs {
+		for _, b := range g.Blocks {
+			for _, in := range b.Instrs {
+				switch x := in.(type) {
+				case ssa.CallInstruction:
+					if x.Common().StaticCallee() == f {
+						n++
+						if !c.onlyReachedFrom(g, ok, depth-1) {
+							return false
+						}
+					}
+					for _, a := range x.Common().Args {
+						if a == ssa.Value(f) {
+							return false
+						}
+					}
+				case *ssa.MakeClosure:
+					if x.Fn == ssa.Value(f) {
+						return false
+					}
+				}
+			}
+		}
+	}
+	return n > 0
+}
+
+// hintSetterPaths: on every path of ImportName / ImportAlias exactly one hint {name: the caller's
+// name, alias: true exactly for ImportAlias} is stored under the caller's path; ImportNames stores
+// one such (non-alias) hint per entry of its argument.
+func (c *Ctx) hintSetterPaths(o *obs) {
+	hints := "recv." + c.ff("hints")
+	nameF, aliasF := c.ff("defname"), c.ff("defalias")
+	for _, name := range []string{"ImportName", "ImportAlias", "ImportNames"} {
+		f := c.method("File", name)
+		if f == nil {
+			o.undecided("(*jen.File)."+name, "anchor", token.NoPos, "anchor lost: public hint setter not found")
+			continue
+		}
+		fn := fname(f)
+		paths, trunc := c.Paths(f, PXConfig{MaxVisits: 4, MaxDepth: 3})
+		if trunc || len(paths) == 0 {
+			o.undecided(fn, "path enumeration", f.Pos(), "%d paths, truncated %v", len(paths), trunc)
+			continue
+		}
+		t := newTally(o, fn, f.Pos())
+		key := "stores the caller's name under the caller's path, flagged alias exactly for ImportAlias, exactly once on every path"
+		for _, p := range paths {
+			if p.End != "return" {
+				t.note(key, false, "path %s ends in %s", traceOf(p), p.End)
+				continue
+			}
+			type upd struct{ k, n, a string }
+			var got []upd
+			bad := ""
+			for _, e := range p.Events {
+				switch e.Kind {
+				case "mapupdate":
+					if e.Recv.String() != hints {
+						bad = "update of " + e.Recv.String()
+						continue
+					}
+					v := e.Args[1]
+					u := upd{k: e.Args[0].String(), n: "?", a: "?"}
+					if v.Op == "struct" {
+						u.n, u.a = "\"\"", "false"
+						if x := v.Fields[nameF]; x != nil {
+							u.n = x.String()
+						}
+						if x := v.Fields[aliasF]; x != nil {
+							u.a = x.String()
+						}
+					}
+					got = append(got, u)
+				case "store":
+					if !strings.HasPrefix(e.Recv.String(), "alloc") && !strings.HasPrefix(e.Recv.String(), "&alloc") {
+						bad = "store to " + e.Recv.String()
+					}
+				case "call", "invoke", "write", "panic", "go", "defer":
+					if e.Kind == "call" && e.Fn != nil && pureExternal[e.Fn.String()] {
+						continue
+					}
+					bad = e.Kind + " " + e.Name
+				}
+			}
+			var want []upd
+			switch name {
+			case "ImportName":
+				want = []upd{{"p0", "p1", "false"}}
+			case "ImportAlias":
+				want = []upd{{"p0", "p1", "true"}}
+			case "ImportNames":
+				for _, atom := range p.Order {
+					if strings.HasPrefix(atom, "next(range(p0))@") && strings.HasSuffix(atom, "#0") && p.Facts[atom] {
+						b := strings.TrimSuffix(atom, "#0")
+						want = append(want, upd{b + "#1", b + "#2", "false"})
+					}
+				}
+			}
+			ok := bad == "" && len(got) == len(want)
+			for i := range want {
+				if ok && got[i] != want[i] {
+					ok = false
+				}
+			}
+			// nothing but the iteration facts may condition the update
+			for atom := range p.Facts {
+				if !strings.HasPrefix(atom, "next(range(p0))@") {
+					ok = false
+					bad += " conditioned on " + atom
+				}
+			}
+			t.note(key, ok, "path %s stores %v, expected %v %s — an alias recorded as a plain name is printed without alias in the import block while the body still uses it; a hint recorded only for some inputs changes the meaning of the same call", traceOf(p), got, want, bad)
+		}
+		t.require(key)
+		t.flush()
+	}
 }
